@@ -77,7 +77,7 @@ const (
 
 // next gets the next rune from the input.
 func (l *lexer) next() (r rune) {
-	if l.pos >= len(l.input) {
+	for l.pos >= len(l.input) {
 		s, ok := <-l.inputs
 		if !ok {
 			if l.pos == l.start {
@@ -91,6 +91,9 @@ func (l *lexer) next() (r rune) {
 		l.lpUpd(s, l.posShift+l.pos-l.start)
 		l.pos -= l.start
 		l.start = 0
+		if !ok {
+			break
+		}
 	}
 	r, l.width = utf8.DecodeRuneInString(l.input[l.pos:])
 	if l.width == 0 {
